@@ -751,6 +751,8 @@ type world struct {
 	units     []propeller.Unit // honest units as they come off the wire
 	fullFlow  bool             // units made by CreatePropellerUnits and reconstruction checked (false while kLeaf is a known finding)
 	lm        leafMode
+	in        []byte           // the caller's message slice that was handed to CreatePropellerUnits (must stay equal to msg)
+	created   []propeller.Unit // the units exactly as CreatePropellerUnits handed them out (before the wire)
 }
 
 func genWorld(rt *rapid.T, c *stats.Case) *world {
@@ -809,8 +811,9 @@ func genWorld(rt *rapid.T, c *stats.Case) *world {
 	if w.fullFlow {
 		w.nonce = genNonce(rt, c)
 		cid := propeller.CommitteeID(w.committee)
+		w.in = append([]byte{}, w.msg...)
 		if pn := safely(func() {
-			units, err = propeller.CreatePropellerUnits(w.publisher.priv, &cid, propeller.Nonce(w.nonce), append([]byte{}, w.msg...), w.d, w.p)
+			units, err = propeller.CreatePropellerUnits(w.publisher.priv, &cid, propeller.Nonce(w.nonce), w.in, w.d, w.p)
 		}); pn != nil || err != nil {
 			c.Violation("create-error", "CreatePropellerUnits(msg len %d, data %d, parity %d): %v %v", ln, w.d, w.p, err, pn)
 		}
@@ -826,6 +829,7 @@ func genWorld(rt *rapid.T, c *stats.Case) *world {
 			c.Violation("rs-encode", "reference publisher: EncodeData(data %d, parity %d) failed: %v", w.d, w.p, err)
 		}
 	}
+	w.created = units
 	// over the wire
 	for i := range units {
 		var back propeller.Unit
